@@ -1,11 +1,11 @@
 import ChessVerif.Props.C08
 open Chess.Props.C08
+#print axioms rook_mask_covers
+#print axioms bishop_mask_covers
 #print axioms rook_eq
 #print axioms bishop_eq
 #print axioms mem_rookMoves
 #print axioms mem_bishopMoves
-#print axioms rook_mask_covers
-#print axioms bishop_mask_covers
-#print axioms checkRook_all
-#print axioms checkBishop_all
 #print axioms table_lengths
+#print axioms Chess.Props.C08.checkRook_all
+#print axioms Chess.Props.C08.checkBishop_all
